@@ -390,6 +390,8 @@ def ev(node, env):
                 return getattr(base, node.attr)
         if isinstance(base, tuple) and hasattr(type(base), '_fields') and (node.attr in type(base)._fields or node.attr in ('_replace', '_asdict', '_fields')):
             return getattr(base, node.attr)
+        if type(base).__name__ == 'CodecInfo' and node.attr == 'name':
+            return base.name
         if base is tuple and node.attr == '__new__':
             return tuple.__new__
         if isinstance(base, type) and (base, node.attr) in _TYPE_ATTRS:
@@ -664,6 +666,9 @@ def module_consts(forest, modname, _stack=()):
                 elif a.name == 'decimal':
                     import decimal as _decimal
                     env[a.asname or 'decimal'] = Namespace('decimal', {'Decimal': _decimal.Decimal, 'ROUND_HALF_UP': _decimal.ROUND_HALF_UP})
+                elif a.name == 'codecs':
+                    import codecs as _codecs
+                    env[a.asname or 'codecs'] = Namespace('codecs', {'lookup': _codecs.lookup})
                 elif a.name == 'os':
                     env[a.asname or 'os'] = Namespace('os', {'path': Namespace('os.path', dict(_PURE_MODULES['os.path'])), 'linesep': '\n', 'sep': '/'})
                 elif a.name in _PURE_MODULES and (a.asname or a.name) not in env:
